@@ -16,13 +16,34 @@ import (
 // only what the properties talk about, never whole files.
 func summarize(files map[string]string) map[string]interface{} {
 	out := map[string]interface{}{}
+	// methods declared anywhere in the output, keyed "dir|Type.Method"
+	pkgMethods := map[string]bool{}
 	for name, src := range files {
 		if !strings.HasSuffix(name, ".go") {
 			continue
 		}
-		out[name] = summarizeFile(name, src)
+		if f, err := parser.ParseFile(token.NewFileSet(), name, src, 0); err == nil {
+			for _, d := range f.Decls {
+				if fd, ok := d.(*ast.FuncDecl); ok && fd.Recv != nil && len(fd.Recv.List) > 0 {
+					pkgMethods[dirOf(name)+"|"+strings.TrimPrefix(exprStr(fd.Recv.List[0].Type), "*")+"."+fd.Name.Name] = true
+				}
+			}
+		}
+	}
+	for name, src := range files {
+		if !strings.HasSuffix(name, ".go") {
+			continue
+		}
+		out[name] = summarizeFile(name, src, pkgMethods)
 	}
 	return out
+}
+
+func dirOf(name string) string {
+	if i := strings.LastIndex(name, "/"); i >= 0 {
+		return name[:i]
+	}
+	return ""
 }
 
 func exprStr(e ast.Expr) string {
@@ -58,7 +79,7 @@ func fieldsOf(fl *ast.FieldList) []fieldT {
 	return out
 }
 
-func summarizeFile(name, src string) map[string]interface{} {
+func summarizeFile(name, src string, pkgMethods map[string]bool) map[string]interface{} {
 	res := map[string]interface{}{}
 	fset := token.NewFileSet()
 	f, err := parser.ParseFile(fset, name, src, parser.ParseComments)
@@ -269,6 +290,97 @@ func summarizeFile(name, src string) map[string]interface{} {
 			}
 			sort.Strings(sh)
 			mm["shadowed"] = sh
+			// a variable declared in a nested block that hides a variable of the function
+			// and is then used, in that block, where the OUTER variable is meant:
+			// as the slice of append(x, ...) or as the receiver of a method call x.M(...)
+			inner := map[string]bool{}
+			if d.Body != nil {
+				outer := map[string]bool{}
+				if d.Type.Params != nil {
+					for _, f := range d.Type.Params.List {
+						for _, n := range f.Names {
+							outer[n.Name] = true
+						}
+					}
+				}
+				for _, st := range d.Body.List {
+					switch st := st.(type) {
+					case *ast.DeclStmt:
+						if gd, ok := st.Decl.(*ast.GenDecl); ok {
+							for _, sp := range gd.Specs {
+								if vs, ok := sp.(*ast.ValueSpec); ok {
+									for _, n := range vs.Names {
+										outer[n.Name] = true
+									}
+								}
+							}
+						}
+					case *ast.AssignStmt:
+						if st.Tok == token.DEFINE {
+							for _, l := range st.Lhs {
+								if id, ok := l.(*ast.Ident); ok {
+									outer[id.Name] = true
+								}
+							}
+						}
+					}
+				}
+				ast.Inspect(d.Body, func(n ast.Node) bool {
+					blk, ok := n.(*ast.BlockStmt)
+					if !ok || blk == d.Body {
+						return true
+					}
+					declared := map[string]token.Pos{}
+					declType := map[string]string{}
+					for _, st := range blk.List {
+						if ds, ok := st.(*ast.DeclStmt); ok {
+							if gd, ok := ds.Decl.(*ast.GenDecl); ok {
+								for _, sp := range gd.Specs {
+									if vs, ok := sp.(*ast.ValueSpec); ok {
+										for _, nm := range vs.Names {
+											if outer[nm.Name] {
+												declared[nm.Name] = vs.End()
+												declType[nm.Name] = exprStr(vs.Type)
+											}
+										}
+									}
+								}
+							}
+						}
+					}
+					if len(declared) == 0 {
+						return true
+					}
+					ast.Inspect(blk, func(m ast.Node) bool {
+						ce, ok := m.(*ast.CallExpr)
+						if !ok {
+							return true
+						}
+						if fid, ok := ce.Fun.(*ast.Ident); ok && fid.Name == "append" && len(ce.Args) > 0 {
+							if a0, ok := ce.Args[0].(*ast.Ident); ok {
+								if p, ok := declared[a0.Name]; ok && a0.Pos() >= p {
+									inner[a0.Name] = true
+								}
+							}
+						}
+						if se, ok := ce.Fun.(*ast.SelectorExpr); ok {
+							if x, ok := se.X.(*ast.Ident); ok {
+								if p, ok := declared[x.Name]; ok && x.Pos() >= p && !typeHasMethod(pkgMethods, dirOf(name), declType[x.Name], se.Sel.Name) {
+									inner[x.Name] = true
+								}
+							}
+						}
+						return true
+					})
+					return true
+				})
+			}
+			il := []string{}
+			for k := range inner {
+				il = append(il, k)
+			}
+			sort.Strings(il)
+			mm["inner_shadow"] = il
 			methods = append(methods, mm)
 		}
 	}
@@ -280,6 +392,23 @@ func summarizeFile(name, src string) map[string]interface{} {
 	res["methods"] = methods
 	res["funcs"] = funcs
 	return res
+}
+
+// typeHasMethod: does the (hiding) variable's own type have the method that is
+// called on it?  Types of the package (the generated enums have Scan) and the
+// database/sql, uuid and pq types that implement sql.Scanner.
+func typeHasMethod(pkgMethods map[string]bool, dir, typ, method string) bool {
+	if pkgMethods[dir+"|"+typ+"."+method] {
+		return true
+	}
+	if method == "Scan" {
+		for _, pre := range []string{"sql.Null", "uuid.UUID", "uuid.NullUUID", "pq.", "pgtype."} {
+			if strings.HasPrefix(typ, pre) {
+				return true
+			}
+		}
+	}
+	return false
 }
 
 var driverCalls = map[string]bool{
